@@ -67,6 +67,15 @@ def strat_history(draw, tier):
     kind = draw(st.sampled_from(PRODUCTS))
     n = draw(st.integers(3, 10))
     paths = [draw(_path(n=n)) for _ in range(draw(st.integers(2, 4)))]
+    # twins: the same path with one interior value pushed far down or up (same terminal value, different extremes) - a
+    # path-dependent payoff must tell them apart whatever it evaluated just before
+    for j in range(len(paths)):
+        if draw(st.integers(0, 2)) == 0:
+            twin = {"times": list(paths[j]["times"]), "path": [list(r) for r in paths[j]["path"]],
+                    "jump": [list(r) for r in paths[j]["jump"]]}
+            i = draw(st.integers(1, n - 2))
+            twin["path"][0][i] = float(f"{twin['path'][0][i] * draw(st.sampled_from([0.2, 5.0])):.6g}")
+            paths.append(twin)
     ops = draw(st.lists(st.one_of(st.tuples(st.just("eval"), st.integers(0, len(paths) - 1)),
                                   st.tuples(st.just("update"), st.sampled_from(["LOG", "IDENDITY"]))),
                         min_size=3, max_size=14))
@@ -326,6 +335,13 @@ def body_identities(case):
         vi = float(pin(pin.underlying_value(times, path, path)))
         vo = float(pout(pout.underlying_value(times, path, path)))
         van = max(float(path[-1]) - k1, 0.0)
+        # each leg against its definition from the path's extremes (the payoff knocks strictly beyond the barrier)
+        hit = bool(np.any(path < case["barrier"])) if case["bt"] == "DOWN" else bool(np.any(path > case["barrier"]))
+        if abs(vi - (van if hit else 0.0)) > tol or abs(vo - (0.0 if hit else van)) > tol:
+            out.append(Violation("C17/identity/barrier-leg-differs-from-its-definition" + ("/reused-objects" if rnd else ""),
+                                 f"round {rnd}: knock-in {vi}, knock-out {vo}, vanilla {van}, barrier "
+                                 f"{'crossed' if hit else 'not crossed'} ({case['bt']} {case['barrier']}) path {path.tolist()}; {detail}"))
+            break
         if abs(vi + vo - van) > tol:
             out.append(Violation("C17/identity/knock-in-plus-knock-out-is-not-vanilla" + ("/reused-objects" if rnd else ""),
                                  f"round {rnd}: {vi}+{vo} vs {van}; barrier {case['barrier']} path {path.tolist()}; {detail}"))
